@@ -200,6 +200,17 @@ def body(chk):
             # ---- vectors
             for vname, (vidx, vaddr) in sorted(v.sol['vecs'].items()):
                 vector_obligations(chk, w, v, scalar, name, vname, vaddr, fs, nmax, tag)
+                # sanity_check: an emptied vector parameter (each one in turn, everything else at its default) is reported as uninitialised
+                st1 = v.st_concrete.clone()
+                vv = st1.side_mut((vaddr.rid, vaddr.off))
+                vv.n = 0
+                st1.mut(vv.buf).size = 0
+                paths = ex.explore(st1, lambda ex: ex.call(fsan, []), 16)
+                bad = [pc_term(p['pc']) for p in paths if p['error'] is not None or p['terminal'] is not None or p['ret'] == 0]
+                lines = ['{ std::vector<Scalar> e_; masa_set_vec<Scalar>("%s", e_); } printf("\\nR empty_nonzero %%d\\n", masa_sanity_check<Scalar>()!=0);' % vname,
+                         '{ std::vector<Scalar> e_(3,(Scalar)0.5); masa_set_vec<Scalar>("%s", e_); } masa_init_param<Scalar>(); printf("\\nR restored_zero %%d\\n", masa_sanity_check<Scalar>()==0);' % vname]
+                chk.paths_clean('%s:sanity_check:empty-vector-%s->nonzero' % (tag, vname), bad, key='%s:sanity-vector' % name, family='sanity',
+                                replay=store_replay(chk, scalar, name, lines, ['R empty_nonzero 1', 'R restored_zero 1'], 'masa_sanity_check with the vector %s emptied' % vname))
             if v.sol['vecs']:
                 # unknown vector name: status 1, nothing changed
                 fgv = S.api_fn(w, 'masa_get_vec', scalar, 'std::string, std::vector<%s>&' % scalar)
